@@ -79,7 +79,7 @@ HARNESSES = [
          configs=[{"FLEX": 1, "LGPF": 1, "BPG": 16, "MAXG": 3, "_unwindset": AT_UW(16, 3)}],
          unwind=4, backends=["kissat", "default"],
          bound="TBD"),
-    dict(name="get_free", src="get_free.c",
+    dict(name="get_free", src="get_free.c", extra_src=["lib/ext2fs/blknum.c"],
          funcs=["ext2fs_get_free_blocks2"],
          configs=[{"NBLK": 10}],
          unwind=4, unwindset=["main.1:12", "vf_spec_get_free.0:12", "ext2fs_test_block_bitmap_range2.0:12",
